@@ -39,6 +39,12 @@ def run(chk, tier):
     for op in ops:
         t = op.split(" ")
         chk.case((t[1], t[-2], t[-1][:64]), nontrivial=set(t[-2]) != {"0"}, sample=op[:200] if r.below(500) == 0 else None)
+    # functions outside the registry whose code differs between feature sets: the BelT wide block (zeroize-gated wiping)
+    for L in ([32, 33, 47, 48, 64, 100, 257] if quick else list(range(32, 200))):
+        k, d = r.bytes(32), r.bytes(L)
+        ops.append(f"wblock enc {hx(k)} {hx(d)}")
+        ops.append(f"wblock dec {hx(k)} {hx(d)}")
+        chk.case(("wblock", L, hx(k)), nontrivial=True)
     outs, _ = chk.run_family(QUICK if quick else THOROUGH, ops, cross=True)
     # shadow backends against the native ones, type by type, on the real builds: the same (key, data) line issued for
     # `Aes128` (AES-NI / fixslice) and `Armv8Aes128` (ARMv8 source over software intrinsics), `Kuznyechik` and `NeonKuznyechik`
